@@ -64,7 +64,7 @@ def run(tier, seed):
     ok, msg = U.regen_table()
     if not ok:
         chk.violation("broken-obligation", "pause-table-translator", dict(error=msg), no_input=True)
-    gate = vlib.coq_gate(PROP)
+    gate = vlib.coq_gate(PROP, extra_targets=["Model/UnitEnv.vo", "gen/GenPauseTable.vo"])
     if not gate["ok"]:
         # the certificate (or another obligation) no longer checks for the regenerated table:
         # look for a concrete failing request sequence on the regenerated model
